@@ -160,6 +160,15 @@ func (f XFile) XML() string {
 			if en.Desc != "" {
 				fmt.Fprintf(&b, "        <description>%s</description>\n", esc(en.Desc))
 			}
+			// what else the schema allows inside an entry (it says something about the entry, it does not unsay it)
+			switch len(en.Name) % 4 {
+			case 0:
+				b.WriteString("        <wip/>\n")
+			case 1:
+				b.WriteString("        <deprecated since=\"2021-03\" replaced_by=\"\">no longer recommended</deprecated>\n")
+			case 2:
+				b.WriteString("        <param index=\"1\" label=\"Rate\" units=\"Hz\">first parameter</param>\n        <param index=\"2\">second parameter</param>\n")
+			}
 			b.WriteString("      </entry>\n")
 		}
 		b.WriteString("    </enum>\n")
